@@ -30,7 +30,8 @@ CLAIM = {
           "(8) C01_roundtrip_all_compressed: the compressed-timestamp option in full generality -- developer fields AND timestamps moved into record headers, single or chained "
           "files, any decoder option set with expansion off; string arrays of known fields qualify too (C06's clean non-empty elements). So every combination of encoder "
           "options of the statement (byte order, header option, local message types, protocol version, header size) is covered by C01_roundtrip / C01_roundtrip_all_compressed. "
-          "(9) C01_roundtrip_any_writer, C01_roundtrip_stream_writer: composed with C09 -- for every writer kind, write-buffer size and caller-preset data size, batch or stream "
+          "(9) C01_roundtrip_any_writer, C01_roundtrip_stream_writer: composed with C09 (C09_stream_message_level: the stream encoder, validating and encoding message by message "
+          "with the state it keeps between calls and between sequences, accepts exactly the chains encode_fits accepts and writes the same bytes) -- for every writer kind, write-buffer size and caller-preset data size, batch or stream "
           "encoder, the destination holds the bytes of encode_fits and decoding the destination content yields the messages (normal headers). "
           "Not yet a theorem and decided per run: component expansion on (decoded messages then also carry the expanded fields, C05), strings and arrays of unknown fields beyond numeric ones: model-encode = Go bytes, model-decode(Go bytes) = Go decode, and Go decode(Go encode x) = validated x "
           "on structured inputs over all encoder options and chained files.",
@@ -51,7 +52,7 @@ def run(ctx):
     ctx.cov["checker_cmd"] = "coq/build.sh Props/C01.vo Run/RunC01.vo; coqc Props/C01.v; coqc cases_C01_*.v (vm_compute: check_enc, check_dec)"
     ctx.assumptions += ["inputs of the round-trip oracle satisfy wf_input (DESIGN.md C01): value shape agrees with the array flag, one field per number, no empty string in slices",
                         "decoder run with component expansion off for the round trip"]
-    tr = ctx.prepare(parts=["factory", "dump-consts", "crc"])
+    tr = ctx.prepare(parts=["factory", "dump-consts", "crc", "decoder-reset", "convmode"])
     ok, _ = ctx.coq(["Props/C01.vo", "Run/RunC01.vo"])
     if ok:
         ctx.props()
@@ -79,7 +80,8 @@ def run(ctx):
             found = True
     if ok:
         for name, cases, ctype, chk in (("encoder", enc, "ecfg * list ifile * eobs", "check_enc"), ("decoder", dec, "bool * bool * bytes * ores", "check_dec"),
-                                        ("stream encoder (accepts what encode_fit accepts, same bytes)", senc, "ecfg * list ifile * eobs", "check_senc")):
+                                        ("stream encoder (accepts what encode_fit accepts, same bytes)", senc, "ecfg * list ifile * eobs", "check_senc"),
+                                        ("message-level stream model (Model/Stream.v)", senc, "ecfg * list ifile * eobs", "check_stream_model")):
             bad, err = ctx.run_cases("Run.RunC01", ctype, cases, check=chk, shard=25)
             if err:
                 ctx.broken.append("correspondence (%s) could not be evaluated: %s" % (name, str(err)[:300]))
